@@ -196,6 +196,44 @@ func runC13(c *Ctx) {
 	}
 	c.Check(nRen == 1, r2, "rename:function", "", "one rename function", fmt.Sprintf("%d rename functions found", nRen))
 
+	// ------------------------------------------------------------------ (2b)
+	{
+		rJ := c.Rule("scale-down-joins", "every function of the scale path that removes replicas in goroutines waits for them (WaitGroup.Wait on the group they are counted in) on every path before it returns: the replica count and names are recomputed right after")
+		rmDeep := p.Deep(MapDeleteOn("delete Processes", s.FProcesses))
+		nJ := 0
+		for _, f := range p.FuncsOfPkg("app") {
+			if !s.IsRunnerMethod(f) || f.Parent() != nil {
+				continue
+			}
+			var gos []ssa.Instruction
+			AllInstrs(f, func(in ssa.Instruction) {
+				if g, ok := in.(*ssa.Go); ok {
+					fns, _ := p.Callees(&g.Call, false)
+					for _, fn := range fns {
+						if rmDeep.May(fn) {
+							gos = append(gos, in)
+						}
+					}
+				}
+			})
+			if len(gos) == 0 {
+				continue
+			}
+			nJ++
+			c.Touch(f)
+			wait := Site{Name: "WaitGroup.Wait", Call: func(cc *ssa.CallCommon) bool { return sameFunc(CalleeObj(cc), wgMethod(p, "Wait")) }}
+			okJ := true
+			for _, g := range gos {
+				r := MustFollow([]Pt{after(g)}, p.Deep(wait), nil)
+				if !r.OK {
+					okJ = false
+				}
+			}
+			c.Check(okJ, rJ, p.FuncKey(f), FirstPos(p, f), "the removals are joined", "the function starts removals of replicas in goroutines and can return without waiting for them: the scale request answers (and renumbers the survivors) while removed replicas are still registered and running")
+		}
+		c.Check(nJ >= 1, rJ, "floor:goroutine-removals", "", "concurrent removals found", "no function removes replicas concurrently (rule needs re-anchoring)")
+	}
+
 	// ------------------------------------------------------------------ (3)
 	r3 := c.Rule("remove-decision", "in the scale-down function the branch on a replica's ReplicaNum against the new scale removes the replica exactly on the ReplicaNum >= scale edge and stores Replicas = scale on the other edge")
 	n3 := 0
